@@ -9,7 +9,7 @@ from microschc.protocol.registry import factory
 from microschc.rfc8724 import DirectionIndicator, PacketDescriptor, RuleDescriptor
 
 from microschc.rfc8724extras import Context
-from microschc.ruler.ruler import Ruler
+from microschc.ruler.ruler import Ruler, RuleDescriptorMatchError
 
 class MatchStrategy(str, Enum):
     FIRST = f'first'
@@ -36,7 +36,9 @@ class ContextManager:
         packet_descriptor: PacketDescriptor = self.parser.parse(packet)
         packet_descriptor.direction = direction
         if match_strategy == MatchStrategy.FIRST:
-            rule_descriptor: RuleDescriptor = next(self.ruler.match_packet_descriptor(packet_descriptor=packet_descriptor))
+            rule_descriptor: RuleDescriptor = next(self.ruler.match_packet_descriptor(packet_descriptor=packet_descriptor), None)
+            if rule_descriptor is None:
+                raise RuleDescriptorMatchError(packet_descriptor=packet_descriptor)
             schc_packet: Buffer = compress(packet_descriptor=packet_descriptor, rule_descriptor=rule_descriptor)
 
         elif match_strategy == MatchStrategy.BEST:
@@ -45,6 +47,8 @@ class ContextManager:
                 compressed: Buffer = compress(packet_descriptor=packet_descriptor, rule_descriptor=rule_descriptor)
                 if schc_packet is None or compressed.length < schc_packet.length:
                     schc_packet = compressed 
+            if schc_packet is None:
+                raise RuleDescriptorMatchError(packet_descriptor=packet_descriptor)
         
         return schc_packet
     
